@@ -27,7 +27,8 @@ func postSchema(r *rand.Rand, d int) gen.M {
 			return []gen.M{{"type": "boolean", "default": false}, {"type": "integer", "default": json.Number("0")}, {"type": "string", "default": ""},
 				{"type": "number", "default": json.Number("0.0")}, {"type": "array", "default": []interface{}{}}, {"type": "object", "default": gen.M{}}}[r.Intn(6)]
 		case 7:
-			return gen.M{"type": "boolean", "default": true}
+			return []gen.M{{"type": "boolean", "default": true}, {"type": "array", "default": []interface{}{"a", "b"}}, {"type": "object", "default": gen.M{"l": []interface{}{json.Number("1"), json.Number("2")}}},
+				{"default": []interface{}{[]interface{}{"x"}, gen.M{"k": []interface{}{nil}}}}}[r.Intn(4)]
 		case 4:
 			return gen.M{"default": json.Number("5")} // untyped: an explicit null is a valid, PRESENT value
 		case 5:
@@ -121,7 +122,8 @@ func drivePost(args []string) error {
 		}
 		st, _ := json.Marshal(s)
 		defs, _ := s["definitions"].(map[string]interface{})
-		var acc *validate.Result // batch use: results of several instances merged into one, post-processed after each merge
+		var shared *validate.SchemaValidator // a validator built once and reused for the later instances of this schema (no recycling)
+		var acc *validate.Result             // batch use: results of several instances merged into one, post-processed after each merge
 		for j := 0; j < *per; j++ {
 			inst := gen.InstFor(r, s, defs, 5, 0.03)
 			if *what == "defaults" {
@@ -147,7 +149,16 @@ func drivePost(args []string) error {
 					data0, _ := decodeFloat(it)
 					_ = validate.AgainstSchema(&sch0, data0, reg)
 				}
-				res := validate.NewSchemaValidator(&sch, nil, "", reg).Validate(data)
+				var res *validate.Result
+				if j == 0 || i%2 == 1 {
+					res = validate.NewSchemaValidator(&sch, nil, "", reg).Validate(data)
+				} else {
+					// which anyOf / oneOf alternative describes the data does not depend on what the validator saw before
+					if shared == nil {
+						shared = validate.NewSchemaValidator(&sch, nil, "", reg)
+					}
+					res = shared.Validate(data)
+				}
 				if !res.IsValid() {
 					return "invalid"
 				}
